@@ -360,7 +360,7 @@ func main() {
 		lines := readLines(os.Args[2])
 		f, err := os.Create(os.Args[3])
 		must(err)
-		opTimeout := 900 * time.Second
+		opTimeout := 240 * time.Second
 		if v := os.Getenv("VERIF_OP_TIMEOUT_S"); v != "" {
 			opTimeout = time.Duration(atoi(v)) * time.Second
 		}
